@@ -39,6 +39,18 @@ Proof.
   intros [x y]. apply gen_body_is_pixel.
 Qed.
 
+(* ewa.py:_mask_helper, regenerated: masks exactly the cells an input with that value would be invalid for *)
+Lemma gen_mask_helper_eq {T} (OP : ops T) d fill : gen_mask_helper OP d fill = mask_helper OP d fill.
+Proof. unfold gen_mask_helper, mask_helper. destruct (isnan OP fill); reflexivity. Qed.
+Lemma mask_helper_classify {T} (OP : ops T) d fill :
+  (isnan OP fill = true -> eqb OP d fill = false) -> (isnan OP fill = false -> isnan OP d = false) ->
+  mask_helper OP d fill = match classify OP fill d with None => true | Some _ => false end.
+Proof.
+  unfold mask_helper, classify. intros H1 H2. destruct (isnan OP fill).
+  - rewrite (H1 eq_refl). cbn. destruct (isnan OP d); reflexivity.
+  - rewrite (H2 eq_refl). destruct (eqb OP d fill); reflexivity.
+Qed.
+
 (* ll2cr with the generated parameters *)
 Definition ll2cr_src {T} (OP : ops T) (a : area T) (fill : T) (pts : list (T * T)) : Z * list (T * T) :=
   ll2cr_static_src OP (params_of_tuple (gen_ll2cr_params OP a)) fill pts.
